@@ -124,7 +124,31 @@ func solveAll(obls []*Obligation, timeoutS int, workers int) {
 			}
 		}()
 	}
+	// helper lemmas first: the obligations that use them read their verdicts
+	var rest []*Obligation
+	var wg0 sync.WaitGroup
+	ch0 := make(chan *Obligation)
+	for i := 0; i < workers; i++ {
+		wg0.Add(1)
+		go func() {
+			defer wg0.Done()
+			for o := range ch0 {
+				solveOne(o, timeoutS)
+			}
+		}()
+	}
 	for _, o := range obls {
+		if o.Helper {
+			if o.Verdict == "" {
+				ch0 <- o
+			}
+		} else {
+			rest = append(rest, o)
+		}
+	}
+	close(ch0)
+	wg0.Wait()
+	for _, o := range rest {
 		ch <- o
 	}
 	close(ch)
@@ -174,6 +198,16 @@ func solveOne(o *Obligation, timeoutS int) {
 		o.Model = v.Output
 	default:
 		o.Verdict = "undecided"
+	}
+	// a failure under lemma-weakened assumptions is re-decided with the full definitions
+	if o.Verdict != "discharged" && !o.WantSat && !o.noHelpers {
+		for _, h := range o.Helpers {
+			if h.Verdict == "discharged" {
+				o.noHelpers = true
+				solveOne(o, timeoutS)
+				return
+			}
+		}
 	}
 }
 
